@@ -9,7 +9,7 @@ PROPERTY = "C07"
 C07_APPS = [a for a in sorted(APPS) if a not in ("iter", "borrow", "any_iter")]
 CLOSES_UNADVANCED = ("chain", "chain2")
 KINDS = ("agen", "acls", "bare", "afull")
-NOPS = 7
+NOPS = 8
 
 
 class Counting:
@@ -115,6 +115,10 @@ def h_borrow(n: int, k0: int, k1: int, k2: int, k3: int, o0: int, o1: int, o2: i
                 b = A.borrow(src)
                 handles.append(b)
                 bclosed = False
+            elif op == 7:
+                # borrow the handle itself: the new handle is as alive as the old one
+                b = A.borrow(b)
+                handles.append(b)
             else:
                 ntool += 1
                 na = len(C07_APPS)
@@ -199,7 +203,7 @@ def jobs(tier):
 
 LEVEL = "other"
 BOUNDS = {
-    "quick": "operation sequences of length 4 (3 items, tool operation = islice with j=1) over {next borrowed, next underlying, close borrowed, close via iter(borrowed), asend(None), re-borrow, pass to a tool (j<=3 items) then close it}; every tool of the application table (20 iterator tools, 6 aggregations) as first operation (j=0..3 items, N<=3) followed by 1 further symbolic operation and the owner draining the rest; underlying: async generator, class with aclose, bare class, class with the full asend/athrow/aclose protocol; N<=3 items, keys unbounded",
+    "quick": "operation sequences of length 4 (3 items, tool operation = islice with j=1) over {next borrowed, next underlying, close borrowed, close via iter(borrowed), asend(None), re-borrow the underlying, borrow the handle itself, pass to a tool (j<=3 items) then close it}; every tool of the application table (20 iterator tools, 6 aggregations) as first operation (j=0..3 items, N<=3) followed by 1 further symbolic operation and the owner draining the rest; underlying: async generator, class with aclose, bare class, class with the full asend/athrow/aclose protocol; N<=3 items, keys unbounded",
     "thorough": "sequences of length 5 / tool followed by 2 operations, all three underlying kinds",
 }
 OUTSIDE = ["athrow through the handle (forwarded to the underlying iterator by design)", "concurrent use of handle and underlying iterator", "sequences longer than the bound"]
